@@ -113,11 +113,12 @@ mod __verif_c06 {
         std::mem::forget(p);
     }
 
-    // @harness tiers=quick,thorough timeout=900
+    // @harness tiers=experimental timeout=2400
     // @encodes physical::compiled_expr::CompiledPredicate::eval_chunk (Instr::And, Instr::Or, Instr::Not over mask registers)
     // @bounds 1 row; program = [x op1 v1 -> m0, x op2 v2 -> m1, (AND|OR) m0 m1 -> m2, NOT m2 -> m3] with symbolic operators/literals; output register m2 or m3 (symbolic)
     // @oracle two-valued AND / OR / NOT of the two comparison results (the rows are non-NULL here)
-    // @unwindset CompiledPredicate::eval_chunk@outer:6 from_elem:6 drop_in_place:6
+    // @unwindset extend_with:6
+    // @unwindloop 6 for ins in &self.prog {
     #[kani::proof]
     #[kani::unwind(2)]
     fn and_or_not_over_two_comparisons() {
@@ -185,11 +186,12 @@ mod __verif_c06 {
         f64_case(true);
     }
 
-    // @harness tiers=thorough timeout=2400
+    // @harness tiers=experimental timeout=2400
     // @encodes physical::compiled_expr::CompiledPredicate::eval_chunk (Instr::LoadF64, Instr::LitF64, Instr::Arith, Instr::CmpF64 with a register source)
     // @bounds 1 row; program = [load x -> f0, lit c -> f1, f0 (+,-,*,/) f1 or f1 (..) f0 -> f2, f2 cmp lit v -> m0]; all f64 with the result of the arithmetic and v outside the NaN/both-zero region
     // @oracle the same IEEE operation applied in the same operand order, then the comparison (division by zero gives +-inf, never NULL)
-    // @unwindset CompiledPredicate::eval_chunk@outer:6 from_elem:6 drop_in_place:6
+    // @unwindset extend_with:6
+    // @unwindloop 6 for ins in &self.prog {
     #[kani::proof]
     #[kani::unwind(2)]
     fn arith_then_compare_f64() {
